@@ -214,22 +214,48 @@ def _integer(x, tol=1e-9):
 
 
 def _tables():
-    """Independent membership predicates gate -> bool, one per gateset docstring (gate type + parameter predicate)."""
+    """Independent membership predicates gate -> bool, one per gateset docstring (gate type + parameter predicate).
+
+    Type families: isinstance.  Instance families (cirq.CZ, cirq.CNOT, ...): GateFamily documents them as 'equal up to global
+    phase to the instance', so the table accepts the named gate type with the matching exponent and, for gates that are not
+    EigenGates, anything whose own unitary equals the instance's catalogue matrix up to global phase."""
     import cirq
-    import cirq_google
     import cirq_ionq
+    from vf.refmodel import gates as RG
+
+    def inst(cls, value, period, matrix, attr="exponent"):
+        matrix = np.asarray(matrix, dtype=complex)
+
+        def f(g):
+            if isinstance(g, cls):
+                return _near(getattr(g, attr), value, period)
+            if isinstance(g, cirq.EigenGate) or not isinstance(g, cirq.Gate):
+                return False
+            u = cirq.unitary(g, None)
+            return u is not None and u.shape == matrix.shape and L.phase_equal(u, matrix, 1e-7)
+        return f
 
     meas = lambda g: isinstance(g, cirq.MeasurementGate)  # noqa: E731
     phase = lambda g: isinstance(g, cirq.GlobalPhaseGate)  # noqa: E731
     phxz = lambda g: isinstance(g, cirq.PhasedXZGate)  # noqa: E731
-    cz1 = lambda g: isinstance(g, cirq.CZPowGate) and _near(g.exponent, 1, 2)  # noqa: E731
+    E = RG.eigen_gate
+    cz1 = inst(cirq.CZPowGate, 1, 2, np.diag([1, 1, 1, -1]))
     czany = lambda g: isinstance(g, cirq.CZPowGate)  # noqa: E731
+    cnot1 = inst(cirq.CXPowGate, 1, 2, E("CXPow", 1))
+    swap1 = inst(cirq.SwapPowGate, 1, 2, RG.SWAP)
+    iswap1 = inst(cirq.ISwapPowGate, 1, 4, RG.iswappow_doc(1))
+    h1 = inst(cirq.HPowGate, 1, 2, RG.H)
+    ccz1 = inst(cirq.CCZPowGate, 1, 2, np.diag([1] * 7 + [-1]))
+
+    def syc(g):
+        if isinstance(g, cirq.FSimGate):
+            return _near(g.theta, math.pi / 2, 2 * math.pi) and _near(g.phi, math.pi / 6, 2 * math.pi)
+        return inst(cirq.FSimGate, 0, 1, RG.syc(), attr="theta")(g)
 
     def any_of(*fs):
         return lambda g: any(f(g) for f in fs)
 
     xyz = lambda g: isinstance(g, (cirq.XPowGate, cirq.YPowGate, cirq.ZPowGate))  # noqa: E731
-    h1 = lambda g: isinstance(g, cirq.HPowGate) and _near(g.exponent, 1, 2)  # noqa: E731
 
     def pasqal_1q(g):
         if isinstance(g, cirq.ParallelGate):
@@ -242,21 +268,17 @@ def _tables():
     return {
         "cz": any_of(cz1, phxz, meas, phase),
         "czpow": any_of(czany, phxz, meas, phase),
-        "sqrt_iswap": any_of(lambda g: isinstance(g, cirq.ISwapPowGate) and _near(g.exponent, 0.5, 4), phxz, meas, phase),
-        "sqrt_iswap_inv": any_of(lambda g: isinstance(g, cirq.ISwapPowGate) and _near(g.exponent, -0.5, 4), phxz, meas, phase),
-        "sycamore": any_of(lambda g: isinstance(g, cirq.FSimGate) and _near(g.theta, math.pi / 2, 2 * math.pi)
-                           and _near(g.phi, math.pi / 6, 2 * math.pi), phxz, meas, phase, xyz,
-                           lambda g: isinstance(g, cirq.PhasedXPowGate)),
-        "ionq": any_of(h1, lambda g: isinstance(g, cirq.CXPowGate) and _near(g.exponent, 1, 2),
-                       lambda g: isinstance(g, cirq.SwapPowGate) and _near(g.exponent, 1, 2), xyz,
-                       lambda g: isinstance(g, (cirq.XXPowGate, cirq.YYPowGate, cirq.ZZPowGate)), meas, phase),
+        "sqrt_iswap": any_of(inst(cirq.ISwapPowGate, 0.5, 4, RG.iswappow_doc(0.5)), phxz, meas, phase),
+        "sqrt_iswap_inv": any_of(inst(cirq.ISwapPowGate, -0.5, 4, RG.iswappow_doc(-0.5)), phxz, meas, phase),
+        "sycamore": any_of(syc, phxz, meas, phase, xyz, lambda g: isinstance(g, cirq.PhasedXPowGate)),
+        "ionq": any_of(h1, cnot1, swap1, xyz, lambda g: isinstance(g, (cirq.XXPowGate, cirq.YYPowGate, cirq.ZZPowGate)), meas, phase),
         "aria": any_of(lambda g: isinstance(g, (cirq_ionq.GPIGate, cirq_ionq.GPI2Gate, cirq_ionq.MSGate)), meas),
         "forte": any_of(lambda g: isinstance(g, (cirq_ionq.GPIGate, cirq_ionq.GPI2Gate, cirq_ionq.ZZGate)), meas),
         "aqt": any_of(lambda g: isinstance(g, (cirq.XXPowGate, cirq.ZPowGate, cirq.PhasedXPowGate)), meas),
         "pasqal": any_of(pasqal_1q, int_pow(cirq.CZPowGate), lambda g: isinstance(g, cirq.IdentityGate), meas,
                          int_pow(cirq.CXPowGate), int_pow(cirq.CCXPowGate), int_pow(cirq.CCZPowGate)),
         "pasqal_basic": any_of(pasqal_1q, int_pow(cirq.CZPowGate), lambda g: isinstance(g, cirq.IdentityGate), meas),
-        "_syc_gate": cirq_google.SYC,
+        "_swap1": swap1, "_iswap1": iswap1, "_ccz1": ccz1,
     }
 
 
@@ -265,16 +287,16 @@ def _additional(rng, which=None):
     import cirq
 
     opts = [
-        ("SWAP", lambda: [cirq.SWAP], lambda g: isinstance(g, cirq.SwapPowGate) and _near(g.exponent, 1, 2),
+        ("SWAP", lambda: [cirq.SWAP], lambda g: _S["tables"]["_swap1"](g),
          [("SwapPow", (1.0, 0.0))], []),
         ("ISWAP+XPow", lambda: [cirq.ISWAP, cirq.XPowGate],
-         lambda g: (isinstance(g, cirq.ISwapPowGate) and _near(g.exponent, 1, 4)) or isinstance(g, cirq.XPowGate),
+         lambda g: _S["tables"]["_iswap1"](g) or isinstance(g, cirq.XPowGate),
          [("ISwapPow", (1.0, 0.0))], ["XPow"]),
         ("CXPow", lambda: [cirq.CXPowGate], lambda g: isinstance(g, cirq.CXPowGate), [("CXPow", None)], []),
         ("ZZPow+family(YPow)", lambda: [cirq.ZZPowGate, cirq.GateFamily(cirq.YPowGate)],
          lambda g: isinstance(g, (cirq.ZZPowGate, cirq.YPowGate)), [("ZZPow", None)], ["YPow"]),
-        ("FSim+CCZ", lambda: [cirq.FSimGate, cirq.CCZ], lambda g: isinstance(g, cirq.FSimGate)
-         or (isinstance(g, cirq.CCZPowGate) and _near(g.exponent, 1, 2)), [("FSim", None)], []),
+        ("FSim+CCZ", lambda: [cirq.FSimGate, cirq.CCZ], lambda g: isinstance(g, cirq.FSimGate) or _S["tables"]["_ccz1"](g),
+         [("FSim", None)], []),
     ]
     return opts[int(rng.integers(len(opts))) if which is None else which]
 
@@ -589,12 +611,11 @@ def sec_gatesets(ctx, rng, case):
     mk = cfg["cls"]
     try:
         out = cirq.optimize_for_target_gateset(circuit, gateset=G, ignore_failures=not strict, **kw)
-    except ValueError as e:
-        msg = str(e)
-        if cfg["required"] is not None and cfg["required"] < 3 and "sqrt" in msg.lower():
-            ctx.reject("compile:required-sqrt-iswap-count-too-low")
+    except Exception as e:  # noqa: BLE001 - every exception is classified below; unknown ones are reported with their input
+        out = _classify_compile_exception(ctx, e, cfg, circuit, items, strict, kw, wit)
+        if out is None:
             return
-        raise
+        strict = False
     ctx.event("compile:" + cname)
     if before is not None:
         ctx.check(repr(circuit) == before, "input-not-mutated", "C07:input-mutated:" + mk, "the transformer changed its input", **wit)
@@ -631,7 +652,7 @@ def sec_gatesets(ctx, rng, case):
     # ---- (b) equivalence on unitary-only circuits
     in_native = all(_is_native(op, cfg, "T") for op in circuit.all_operations() if NOCOMPILE not in op.tags)
     changed = [repr(o) for o in out_ops] != [repr(o) for o in circuit.all_operations()]
-    if not has_meas:
+    if not has_meas and cfg["tol"] is not None:
         want = _ref_unitary(items, n)
         got, why = _lower(out, qubits, "output")
         if got is None:
@@ -669,6 +690,76 @@ def sec_gatesets(ctx, rng, case):
     ctx.sample({"gateset": cfg["label"], "kind": label, "program": _describe(items)[:6], "output_ops": len(out_ops)})
 
 
+_KNOWN_HITS = {}
+
+
+def _known(ctx, mech, msg, **wit):
+    """A mechanism already understood: store a few witnesses per shard, count the rest (keeps the bounded violation list free)."""
+    ctx.ok("no-undocumented-exception")
+    _KNOWN_HITS[mech] = _KNOWN_HITS.get(mech, 0) + 1
+    if _KNOWN_HITS[mech] <= 3:
+        ctx.fail(mech, msg, **wit)
+    else:
+        ctx.event("known:" + mech)
+
+
+def _tb_has(e, *needles):
+    txt = "".join(traceback.format_exception(type(e), e, e.__traceback__))
+    return all(n in txt for n in needles)
+
+
+PHASE_MECH = "C07:ionq-native-gateset-emits-global-phase-it-rejects(ignore_failures=False)"
+REORDER_MECH = "C07:reorder_operations-TypeError(commutes(tagged op, measurement, default=False)-raises;TaggedOperation._commutes_-drops-default)"
+
+
+def _classify_compile_exception(ctx, e, cfg, circuit, items, strict, kw, wit):
+    """Documented rejections -> ctx.reject; understood defects -> explained-by mechanism keys; the rest -> violation with the
+    input attached.  Returns a lenient re-compilation to continue with, or None."""
+    import cirq
+
+    msg = str(e)
+    G = cfg["G"]
+    if isinstance(e, ValueError) and cfg["required"] is not None and cfg["required"] < 3 and "sqrt" in msg.lower():
+        ctx.reject("compile:required-sqrt-iswap-count-too-low")  # documented in the constructor docstring
+        return None
+    if isinstance(e, ValueError) and strict and msg.startswith("Unable to convert") and not cfg["phase_ok"]:
+        # explained-by: the op named in the message is a global phase (no input op is one for these gatesets) and the lenient
+        # run of the same input compiles and is judged below as usual
+        named = msg[len("Unable to convert "):].split(" to target gateset")[0]
+        try:
+            is_phase = abs(abs(complex(named.strip("()"))) - 1) < 1e-9
+        except ValueError:
+            is_phase = False
+        if is_phase and not any(s["spec"] == "GlobalPhase" for s in _flat(items)):
+            if cfg["cls"] in ("AriaNativeGateset", "ForteNativeGateset"):
+                # the gateset's own _decompose_single_qubit_operation yields global_phase_operation(-1j): every non-native
+                # single-qubit input fails in strict mode
+                _known(ctx, PHASE_MECH,
+                       "optimize_for_target_gateset(..., gateset=%s, ignore_failures=False) raises '%s' for the global phase "
+                       "operation its own single-qubit synthesis emits" % (cfg["cls"], msg[:100]), **wit)
+            else:
+                # AQT / Pasqal document no GlobalPhaseGate; the phase comes from cirq.decompose of a >=3-qubit or shifted input
+                # operation: counted as the documented strict-mode refusal of an operation that cannot be converted exactly
+                ctx.reject("compile:strict-mode-refuses-global-phase-of-default-decomposition:" + cfg["cls"])
+            return cirq.optimize_for_target_gateset(circuit, gateset=G, ignore_failures=True, **kw)
+    if isinstance(e, TypeError) and msg.startswith("Failed to determine whether or not") and _tb_has(e, "insertion_sort.py", "_commutes_"):
+        # explained-by: only with reorder_operations, only when a tagged operation meets a measurement, and the same circuit
+        # without its tags compiles
+        has_tagged = any(op.tags for op in circuit.all_operations())
+        has_meas = any(cirq.is_measurement(op) for op in circuit.all_operations())
+        if has_tagged and has_meas and cfg["G"]._reorder_operations:
+            try:
+                cirq.optimize_for_target_gateset(cirq.Circuit(op.untagged for op in circuit.all_operations()), gateset=G)
+                _known(ctx, REORDER_MECH, "%s: %s" % (type(e).__name__, msg[:200]), **wit)
+                return None
+            except TypeError:
+                pass
+    ctx.ok("no-undocumented-exception")
+    ctx.fail("C07:compile-exception:%s:%s" % (type(e).__name__, cfg["cls"]), "%s: %s" % (type(e).__name__, msg[:300]),
+             traceback="".join(traceback.format_exception(type(e), e, e.__traceback__))[-1500:], **wit)
+    return None
+
+
 def _sycamore_tabulation_cfg():
     import cirq
     import cirq_google
@@ -678,21 +769,751 @@ def _sycamore_tabulation_cfg():
                                                      random_state=np.random.RandomState(11))
         _S["syc_tab"] = tab
     G = cirq_google.SycamoreTargetGateset(tabulation=_S["syc_tab"])
-    cfg = dict(label="Sycamore(tabulation)", cls="SycamoreTargetGateset", G=G, table=_S["tables"]["sycamore"], tol=0.5, phase_ok=True,
+    cfg = dict(label="Sycamore(tabulation)", cls="SycamoreTargetGateset", G=G, table=_S["tables"]["sycamore"], tol=None, phase_ok=True,
                unroll=True, twoq_family=True, merges=True, bound=None, required=None,
                native1=["PhasedXZ", "PhasedXPow", "XPow", "YPow", "ZPow"], native2=[("SYC", ())], native3=[], extra=None,
                meas_ok=True, deep_ok=True, kwargs={})
     return cfg
 
 
+# =========================================================================== section 2: routing
 def _setup_route():
-    pass
+    import cirq
+    from cirq.transformers.routing import route_circuit_cqc as R
+
+    class PatchedRouteCQC(cirq.RouteCQC):
+        """Used only to *explain* the known IndexError: with no disjoint pair of candidate swaps the pair strategy gives up."""
+
+        @classmethod
+        def _choose_pair_of_swaps(cls, mm, two_qubit_ops_ints, timestep, lookahead_radius):
+            pair_sigma = R._disjoint_nc2_combinations(cls._initial_candidate_swaps(mm, two_qubit_ops_ints[timestep]))
+            if not pair_sigma:
+                return None
+            return cls._choose_optimal_swap(mm, two_qubit_ops_ints, timestep, lookahead_radius, pair_sigma)
+
+    _S["PatchedRouteCQC"] = PatchedRouteCQC
 
 
+def _gen_graph(rng):
+    """Device graph built by the harness: (label, nodes, edge list).  3-8 nodes, connected."""
+    import cirq
+
+    kind = ["line", "ring", "grid", "star", "random", "random", "grid-subset"][int(rng.integers(7))]
+    qt = int(rng.integers(3))
+
+    def node(i, rc=None):
+        if rc is not None and qt != 2:
+            return cirq.GridQubit(*rc)
+        if qt == 0:
+            return cirq.LineQubit(i)
+        if qt == 1:
+            return cirq.NamedQubit("p%02d" % i)
+        return cirq.GridQubit(i // 3 + 1, i % 3 + 2)
+
+    if kind == "line":
+        k = int(rng.integers(3, 9))
+        nodes = [node(i) for i in range(k)]
+        edges = [(i, i + 1) for i in range(k - 1)]
+    elif kind == "ring":
+        k = int(rng.integers(3, 9))
+        nodes = [node(i) for i in range(k)]
+        edges = [(i, (i + 1) % k) for i in range(k)]
+    elif kind == "star":
+        k = int(rng.integers(3, 9))
+        nodes = [node(i) for i in range(k)]
+        c = int(rng.integers(k))
+        edges = [(c, i) for i in range(k) if i != c]
+    elif kind in ("grid", "grid-subset"):
+        r, c = [(2, 2), (2, 3), (2, 4), (3, 2), (4, 2), (1, 4), (3, 3)][int(rng.integers(7))]
+        cells = [(i, j) for i in range(r) for j in range(c)]
+        if kind == "grid-subset" or len(cells) > 8:
+            # grow a connected subset of the grid
+            want = int(rng.integers(3, min(8, len(cells)) + 1))
+            chosen = [cells[int(rng.integers(len(cells)))]]
+            while len(chosen) < want:
+                front = [x for x in cells if x not in chosen and any(abs(x[0] - y[0]) + abs(x[1] - y[1]) == 1 for y in chosen)]
+                chosen.append(front[int(rng.integers(len(front)))])
+            cells = sorted(chosen)
+        nodes = [node(i, rc) for i, rc in enumerate(cells)]
+        edges = [(i, j) for i in range(len(cells)) for j in range(i + 1, len(cells))
+                 if abs(cells[i][0] - cells[j][0]) + abs(cells[i][1] - cells[j][1]) == 1]
+    else:
+        k = int(rng.integers(3, 9))
+        nodes = [node(i) for i in range(k)]
+        order = [int(x) for x in rng.permutation(k)]
+        edges = [(order[i], order[int(rng.integers(i))]) for i in range(1, k)]  # random spanning tree
+        for _ in range(int(rng.integers(0, k))):
+            a, b = (int(x) for x in rng.choice(k, size=2, replace=False))
+            if (a, b) not in edges and (b, a) not in edges:
+                edges.append((a, b))
+    if rng.random() < 0.5:
+        edges = [(b, a) if rng.random() < 0.5 else (a, b) for a, b in edges]
+    return "%s-%d" % (kind, len(nodes)), nodes, edges
+
+
+def _connected_subset(rng, k, edges, size):
+    adj = {i: set() for i in range(k)}
+    for a, b in edges:
+        adj[a].add(b)
+        adj[b].add(a)
+    chosen = [int(rng.integers(k))]
+    while len(chosen) < size:
+        front = sorted({y for x in chosen for y in adj[x]} - set(chosen))
+        chosen.append(front[int(rng.integers(len(front)))])
+    return chosen
+
+
+def _perm_matrix(src_to_dst, m):
+    """Pi|x> = |y> with y[dst] = x[src] over m big-endian qubits (own construction, numpy only)."""
+    D = 2 ** m
+    Pi = np.zeros((D, D))
+    for x in range(D):
+        bits = [(x >> (m - 1 - i)) & 1 for i in range(m)]
+        y = [0] * m
+        for sidx, didx in src_to_dst.items():
+            y[didx] = bits[sidx]
+        Pi[int("".join(map(str, y)), 2) if m else 0, x] = 1
+    return Pi
+
+
+def _is_swap_gate(g):
+    import cirq
+
+    return isinstance(g, cirq.SwapPowGate) and g.exponent == 1
+
+
+def _op_sig(op):
+    import cirq
+
+    return (repr(op.untagged.gate), tuple(sorted(repr(t) for t in op.tags if not isinstance(t, cirq.RoutingSwapTag))))
+
+
+def _judge_routing(ctx, res, circuit, items, logical, nodes, edge_set, tag, wit, count=True):
+    """All routing oracles on one (routed, initial_map, swap_map).  Returns (ok, n_inserted)."""
+    import cirq
+    from collections import Counter
+
+    chk = ctx.check if count else (lambda cond, mon, mech, msg="", **w: bool(cond))
+    routed, imap, smap = res
+    ok = True
+    node_set = set(nodes)
+    vals = list(imap.values())
+    good_map = (set(circuit.all_qubits()) <= set(imap.keys()) and all(v in node_set for v in vals) and len(set(vals)) == len(vals))
+    ok &= chk(good_map, "route:initial-map-injective", "C07:route-initial-map-not-injective-into-device",
+              "initial_map %r" % (imap,), **wit)
+    good_swap = set(smap.keys()) == set(vals) and sorted(map(repr, smap.values())) == sorted(map(repr, vals))
+    ok &= chk(good_swap, "route:swap-map-is-permutation", "C07:route-swap-map-not-a-permutation-of-mapped-physicals",
+              "swap_map %r over %r" % (smap, vals), **wit)
+    if not (good_map and good_swap):
+        return False, 0
+    rops = list(routed.all_operations())
+    off = [op for op in rops if any(q not in node_set for q in op.qubits)
+           or (len(op.qubits) >= 2 and (len(op.qubits) > 2 or frozenset(op.qubits) not in edge_set))]
+    if count:
+        ctx.ok("route:on-edge", max(sum(1 for op in rops if len(op.qubits) >= 2) - 1, 0))
+    ok &= chk(not off, "route:on-edge", "C07:route-two-qubit-op-off-edge",
+              lambda: "routed operation(s) not on a device edge: %s" % [repr(o) for o in off[:3]], **wit)
+    # inserted operations are SWAPs, tagged when requested; everything else is the input, relabelled
+    cin = Counter(_op_sig(op) for op in circuit.all_operations())
+    cout = Counter(_op_sig(op) for op in rops)
+    extra = cout - cin
+    missing = cin - cout
+    swap_sig = (repr(cirq.SWAP), ())
+    only_swaps = not missing and all(k == swap_sig for k in extra)
+    ok &= chk(only_swaps, "route:inserted-ops-are-swaps", "C07:route-inserted-or-lost-operations",
+              lambda: "extra %r missing %r" % (dict(extra), dict(missing)), **wit)
+    n_ins = sum(extra.values())
+    tagged = [op for op in rops if any(isinstance(t, cirq.RoutingSwapTag) for t in op.tags)]
+    if tag:
+        ok &= chk(len(tagged) == n_ins and all(_is_swap_gate(op.gate) for op in tagged), "route:swap-tags",
+                  "C07:route-swap-tag-missing-or-misplaced", "%d tagged operations for %d inserted swaps" % (len(tagged), n_ins), **wit)
+    else:
+        ok &= chk(not tagged, "route:swap-tags", "C07:route-swap-tag-without-request", "", **wit)
+    # equivalence up to the reported permutation
+    if not any(it["t"] == "M" for it in items) and not off:
+        phys = list(vals)
+        idx = {p: i for i, p in enumerate(phys)}
+        m = len(phys)
+        sp = _specs()
+        want = np.eye(2 ** m, dtype=complex)
+        for st in _flat(items):
+            want = L.embed(sp[st["spec"]].ref(st["p"]), [idx[imap[logical[w]]] for w in st["w"]], (2,) * m) @ want
+        Pi = _perm_matrix({idx[p]: idx[smap[p]] for p in phys}, m)
+        got, why = _lower(routed, phys, "routed circuit")
+        if got is None:
+            ok &= chk(False, "route:equivalent-up-to-permutation", "C07:route-output-not-lowerable", why, **wit)
+        else:
+            d = L.phase_diff(Pi.T @ got, want)
+            ok &= chk(d <= TOL, "route:equivalent-up-to-permutation", "C07:route-not-equivalent-up-to-reported-permutation",
+                      lambda: "undoing swap_map on the routed circuit leaves a unitary %.3g away from the relabelled input" % d,
+                      diff=d, routed=[repr(o)[:120] for o in rops[:40]], initial_map=repr(imap), swap_map=repr(smap), **wit)
+    else:
+        sig_in = sorted(cirq.measurement_key_name(op) for op in circuit.all_operations() if cirq.is_measurement(op))
+        sig_out = sorted(cirq.measurement_key_name(op) for op in rops if cirq.is_measurement(op))
+        ok &= chk(sig_in == sig_out, "route:measurements-survive", "C07:route-measurement-lost", "%r vs %r" % (sig_in, sig_out), **wit)
+    return ok, n_ins
+
+
+def _gen_route_program(rng, n):
+    cfg = {"phase_ok": False}
+    items, nm = [], 0
+    for _ in range(int(rng.integers(2, 15))):
+        r = rng.random()
+        if n >= 2 and r < 0.62:
+            items.append(_cat_step(rng, n, cfg, arity_w=(0, 0, 1, 0)))
+        elif r < 0.95:
+            items.append(_cat_step(rng, n, cfg, arity_w=(0, 1, 0, 0)))
+        else:
+            items.append({"t": "M", "key": "r%d" % nm, "w": _wires(rng, n, int(rng.integers(1, min(n, 2) + 1)))})
+            nm += 1
+    return items
+
+
+def _small_probes():
+    """Smallest device graphs crossed with the shortest CZ programs that make single-swap candidates tie (lookahead 1)."""
+    import cirq
+
+    Lq, Gq = cirq.LineQubit, cirq.GridQubit
+    graphs = [("path-3", [Lq(0), Lq(1), Lq(2)], [(0, 1), (1, 2)]),
+              ("star-4", [Lq(0), Lq(1), Lq(2), Lq(3)], [(0, 1), (0, 2), (0, 3)]),
+              ("grid2x2-4", [Gq(0, 0), Gq(0, 1), Gq(1, 0), Gq(1, 1)], [(0, 1), (0, 2), (1, 3), (2, 3)]),
+              ("path-4", [Lq(0), Lq(1), Lq(2), Lq(3)], [(0, 1), (1, 2), (2, 3)])]
+    progs = [[(0, 1), (0, 2)], [(0, 1), (0, 2), (1, 2)], [(0, 2), (1, 2), (0, 1)], [(0, 1), (1, 2), (0, 2), (0, 1)]]
+    out = []
+    for g in graphs:
+        for pr in progs:
+            out.append({"graph": g, "n": 3, "items": [_U("CZPow", (1.0, 0.0), w) for w in pr], "radius": 1})
+    return out
+
+
+def sec_routing(ctx, rng, case):
+    import cirq
+    import networkx as nx
+
+    if "probes" not in _S:
+        _S["probes"] = _small_probes()
+    forced = _S["probes"][case] if case < len(_S["probes"]) else None
+    glabel, nodes, edges = _gen_graph(rng) if forced is None else forced["graph"]
+    k = len(nodes)
+    graph = nx.Graph()
+    graph.add_nodes_from(nodes)
+    graph.add_edges_from((nodes[a], nodes[b]) for a, b in edges)
+    edge_set = {frozenset((nodes[a], nodes[b])) for a, b in edges}
+    n = int(rng.integers(2, min(k, 6) + 1))
+    items = _gen_route_program(rng, n)
+    if forced is not None:
+        n, items = forced["n"], forced["items"]
+    three = forced is None and n >= 3 and rng.random() < 0.12
+    if three:  # a three-qubit gate, decomposed to 1- and 2-qubit operations first, as RouteCQC requires
+        name, p = [("CCZPow", (1.0, 0.0)), ("CCXPow", (1.0, 0.0)), ("CSWAP", ()), ("CCZPow", (0.5, 0.0))][int(rng.integers(4))]
+        items.insert(int(rng.integers(len(items) + 1)), _U(name, p, _wires(rng, n, 3)))
+    logical = (P.make_qubits(rng, (2,) * n) if forced is None else [cirq.NamedQubit("q%d" % i) for i in range(n)])
+    if forced is None and rng.random() < 0.3:
+        logical = [logical[i] for i in rng.permutation(n)]
+    circuit = cirq.Circuit(_moments(items, logical))
+    if three:
+        circuit = cirq.Circuit(cirq.decompose(circuit, keep=lambda op: len(op.qubits) <= 2))
+        if any(len(op.qubits) != 1 and len(op.qubits) != 2 for op in circuit.all_operations()):
+            raise Reject("decomposition left an operation that is not on 1 or 2 qubits")
+        if not any(it["t"] == "M" for it in items):
+            low, _ = _lower(circuit, logical, "decomposed input")
+            if low is None or L.phase_diff(low, _ref_unitary(items, n)) > 1e-7:
+                raise Reject("cirq.decompose of the three-qubit gate is not the catalogue matrix (C04/C15 territory)")
+    used = sorted(circuit.all_qubits())
+    radius = int(rng.choice([1, 1, 2, 3, 4, 8]))
+    tag = bool(rng.integers(2))
+    mk = int(rng.integers(4))
+    mapper, mlabel = None, "default"
+    if mk == 1:
+        mapper, mlabel = cirq.LineInitialMapper(graph), "LineInitialMapper"
+    elif mk >= 2:
+        extra_logical = [] if rng.random() < 0.6 else [cirq.NamedQubit("spare%d" % i) for i in range(int(rng.integers(1, 3)))]
+        keys = list(logical) + extra_logical
+        if len(keys) > min(k, 7):
+            keys = list(logical)
+        sub = _connected_subset(rng, k, edges, len(keys))
+        perm = [sub[i] for i in rng.permutation(len(sub))]
+        hard = {q: nodes[j] for q, j in zip(keys, perm)}
+        mapper, mlabel = cirq.HardCodedInitialMapper(hard), "HardCoded%r" % ({repr(a): repr(b) for a, b in hard.items()},)
+    if forced is not None:
+        radius, tag, mapper, mlabel = forced["radius"], False, None, "default"
+    wit = dict(graph=glabel, nodes=[repr(x) for x in nodes], edges=[(repr(nodes[a]), repr(nodes[b])) for a, b in edges],
+               program=_describe(items), logical=[repr(q) for q in logical], lookahead_radius=radius, tag_inserted_swaps=tag,
+               initial_mapper=mlabel)
+    kw = dict(lookahead_radius=radius, tag_inserted_swaps=tag, initial_mapper=mapper)
+    before = repr(circuit)
+    router = cirq.RouteCQC(graph)
+    try:
+        res = router.route_circuit(circuit, **kw)
+    except IndexError as e:
+        if str(e) == "list index out of range" and _tb_has(e, "_choose_pair_of_swaps", "_choose_optimal_swap"):
+            # explained-by: the same input routes and passes every oracle once the pair strategy returns None for an empty
+            # list of disjoint swap pairs (the known one-line repair); otherwise it is a different failure
+            try:
+                res2 = _S["PatchedRouteCQC"](graph).route_circuit(circuit, **kw)
+                ok2, _ = _judge_routing(ctx, res2, circuit, items, logical, nodes, edge_set, tag, wit, count=False)
+            except Exception:  # noqa: BLE001
+                ok2 = False
+            if ok2:
+                _known(ctx, ROUTE_KNOWN, "IndexError in RouteCQC._choose_optimal_swap: _choose_pair_of_swaps passed an empty candidate "
+                       "list (single-swap candidates tie, no two disjoint candidate swaps exist on this graph)",
+                       size=(k, len(edges), n, len(items)), **wit)
+                return "known"
+        raise
+    ctx.event("route:" + glabel.split("-")[0])
+    ctx.check(repr(circuit) == before, "input-not-mutated", "C07:input-mutated:RouteCQC", "", **wit)
+    ok, n_ins = _judge_routing(ctx, res, circuit, items, logical, nodes, edge_set, tag, wit)
+    if rng.random() < 0.25:  # __call__ returns exactly the routed circuit of route_circuit
+        again = cirq.RouteCQC(graph)(circuit, **kw)
+        ctx.check(again == res[0], "route:__call__==route_circuit[0]", "C07:route-call-differs-from-route_circuit", "", **wit)
+    if mapper is not None and mk >= 2:
+        ctx.check(dict(res[1]) == hard, "route:hard-coded-map-used", "C07:route-hard-coded-initial-map-not-used", "", **wit)
+    n2 = sum(1 for s in _flat(items) if len(s["w"]) == 2)
+    ctx.distinct(("route", glabel, tuple(map(tuple, edges)), tuple(_describe(items)), radius, tag, mlabel), nontrivial=n2 > 0)
+    if n_ins:
+        ctx.event("route:swaps-inserted", n_ins)
+    ctx.sample({"graph": glabel, "program": _describe(items)[:6], "radius": radius, "mapper": mlabel[:80], "inserted_swaps": n_ins})
+    return "ok" if ok else "bad"
+
+
+# =========================================================================== section 3: devices
 def _setup_devices():
     pass
 
 
+# Harness-side specification of a Google grid device: which DeviceSpecification gate names admit which candidate operation.
+# Written from device.proto / the GridDevice docstring: syc, sqrt_iswap, sqrt_iswap_inv, cz (the named gate, or a gate of the
+# FSim family equal to it - FSimGateFamily docstring), cz_pow_gate (any CZ power), phased_xz (PhasedXZ, X/Y powers, H powers,
+# PhasedX powers, identity, single-qubit Cliffords), virtual_zpow (Z power without PhysicalZTag), physical_zpow (Z power with
+# it), meas, wait, reset, fsim_via_model (FSimGate tagged FSimViaModelTag).
+_GRID_GATE_NAMES = ["syc", "sqrt_iswap", "sqrt_iswap_inv", "cz", "cz_pow_gate", "phased_xz", "virtual_zpow", "physical_zpow",
+                    "meas", "wait", "reset", "fsim_via_model"]
+
+
+def _grid_candidates(rng):
+    """(label, arity, maker(qubits) -> op, names that admit it, variadic)"""
+    import cirq
+    import cirq_google as cg
+
+    t = float(rng.uniform(0.05, 0.95))
+    pi = math.pi
+    return [
+        ("SYC", 2, lambda q: cg.SYC(*q), {"syc"}, False),
+        ("FSim(pi/2,pi/6)", 2, lambda q: cirq.FSimGate(pi / 2, pi / 6)(*q), {"syc"}, False),
+        ("SQRT_ISWAP", 2, lambda q: cirq.SQRT_ISWAP(*q), {"sqrt_iswap"}, False),
+        ("FSim(-pi/4,0)", 2, lambda q: cirq.FSimGate(-pi / 4, 0)(*q), {"sqrt_iswap"}, False),
+        ("SQRT_ISWAP_INV", 2, lambda q: cirq.SQRT_ISWAP_INV(*q), {"sqrt_iswap_inv"}, False),
+        ("CZ", 2, lambda q: cirq.CZ(*q), {"cz", "cz_pow_gate"}, False),
+        ("FSim(0,pi)", 2, lambda q: cirq.FSimGate(0, pi)(*q), {"cz"}, False),
+        ("CZ**t", 2, lambda q: (cirq.CZ ** t)(*q), {"cz_pow_gate"}, False),
+        ("PhasedXZ", 1, lambda q: cirq.PhasedXZGate(x_exponent=t, z_exponent=0.3, axis_phase_exponent=-0.2)(*q), {"phased_xz"}, False),
+        ("X**t", 1, lambda q: (cirq.X ** t)(*q), {"phased_xz"}, False),
+        ("Y**t", 1, lambda q: (cirq.Y ** t)(*q), {"phased_xz"}, False),
+        ("H", 1, lambda q: cirq.H(*q), {"phased_xz"}, False),
+        ("PhasedX", 1, lambda q: cirq.PhasedXPowGate(phase_exponent=t, exponent=0.5)(*q), {"phased_xz"}, False),
+        ("I", 1, lambda q: cirq.I(*q), {"phased_xz"}, False),
+        ("Z**t", 1, lambda q: (cirq.Z ** t)(*q), {"virtual_zpow"}, False),
+        ("Z**t[PhysicalZTag]", 1, lambda q: (cirq.Z ** t)(*q).with_tags(cg.PhysicalZTag()), {"physical_zpow"}, False),
+        ("measure1", 1, lambda q: cirq.measure(*q, key="a"), {"meas"}, True),
+        ("measure2", 2, lambda q: cirq.measure(*q, key="b"), {"meas"}, True),
+        ("measure3", 3, lambda q: cirq.measure(*q, key="c"), {"meas"}, True),
+        ("wait", 1, lambda q: cirq.wait(*q, nanos=10), {"wait"}, True),
+        ("reset", 1, lambda q: cirq.ResetChannel()(*q), {"reset"}, False),
+        ("FSim(t,0.3)[FSimViaModelTag]", 2, lambda q: cirq.FSimGate(t, 0.3)(*q).with_tags(cg.FSimViaModelTag()), {"fsim_via_model"}, False),
+        ("FSim(t,0.3)", 2, lambda q: cirq.FSimGate(t, 0.3)(*q), set(), False),
+        ("ISWAP", 2, lambda q: cirq.ISWAP(*q), set(), False),
+        ("CNOT", 2, lambda q: cirq.CNOT(*q), set(), False),
+        ("SWAP", 2, lambda q: cirq.SWAP(*q), set(), False),
+        ("XX**t", 2, lambda q: (cirq.XX ** t)(*q), set(), False),
+        ("CCZ", 3, lambda q: cirq.CCZ(*q), set(), False),
+        ("Matrix1", 1, lambda q: cirq.MatrixGate(L.haar_unitary(rng, 2))(*q), set(), False),
+        ("amplitude_damp", 1, lambda q: cirq.amplitude_damp(0.1)(*q), set(), False),
+    ]
+
+
+IONQ_DEVICE_MECH = "C07:device-verdict:IonQAPIDevice:accepts-operation-with-some-qubits-off-device"
+
+
+def _verdict(fn, arg):
+    """'accept' | 'ValueError' | ('other', exception)"""
+    try:
+        fn(arg)
+        return "accept", None
+    except ValueError as e:
+        return "ValueError", e
+    except NotImplementedError as e:
+        return "NotImplementedError", e
+
+
+def _check_verdict(ctx, dev_name, got, err, expect_ok, why, wit, documented_alt=None):
+    want = "accept" if expect_ok else "ValueError"
+    ok = got == want or (documented_alt is not None and got == documented_alt)
+    if ok:
+        ctx.ok("device-verdict")
+        return True
+    if got == "accept":
+        mech = "C07:device-verdict:%s:accepts-%s" % (dev_name, why)
+    elif expect_ok:
+        mech = "C07:device-verdict:%s:rejects-valid-operation" % dev_name
+    else:
+        mech = "C07:device-verdict:%s:wrong-exception-type-%s" % (dev_name, got)
+    msg = "expected %s (%s), device said %s %s" % (want, why or "valid", got, str(err)[:160])
+    if mech == IONQ_DEVICE_MECH:  # understood (see the final report): keep a few witnesses per shard, count the rest
+        ctx.ok("device-verdict")
+        _KNOWN_HITS[mech] = _KNOWN_HITS.get(mech, 0) + 1
+        if _KNOWN_HITS[mech] <= 3:
+            ctx.fail(mech, msg + " - IonQAPIDevice.validate_operation only rejects when NO qubit of the operation is on the device", **wit)
+        else:
+            ctx.event("known:" + mech)
+        return False
+    ctx.check(False, "device-verdict", mech, msg, **wit)
+    return False
+
+
+def _pick_qubits(rng, on, off, arity, mode):
+    """mode: 'on' all on the device, 'off' all off, 'mixed' some on and some off."""
+    on, off = list(on), list(off)
+    if mode == "on" or not off:
+        return [on[int(i)] for i in rng.choice(len(on), size=arity, replace=False)] if len(on) >= arity else None
+    if mode == "off":
+        return [off[int(i)] for i in rng.choice(len(off), size=arity, replace=False)] if len(off) >= arity else None
+    if arity < 2 or not on:
+        return None
+    k = int(rng.integers(1, arity))
+    if len(on) < k or len(off) < arity - k:
+        return None
+    qs = [on[int(i)] for i in rng.choice(len(on), size=k, replace=False)] + [off[int(i)] for i in rng.choice(len(off), size=arity - k, replace=False)]
+    return [qs[int(i)] for i in rng.permutation(arity)]
+
+
+def _dev_grid(ctx, rng):
+    import cirq
+    import cirq_google as cg
+    from cirq_google.api import v2
+
+    rows, cols = int(rng.integers(1, 4)), int(rng.integers(2, 4))
+    r0, c0 = int(rng.integers(0, 5)), int(rng.integers(0, 5))
+    cells = [(r0 + i, c0 + j) for i in range(rows) for j in range(cols)]
+    keep = [c for c in cells if rng.random() < 0.85] or cells[:2]
+    qubits = [cirq.GridQubit(*c) for c in keep]
+    adjacent = [(a, b) for i, a in enumerate(keep) for b in keep[i + 1:] if abs(a[0] - b[0]) + abs(a[1] - b[1]) == 1]
+    pairs = [p for p in adjacent if rng.random() < 0.7]
+    names = [g for g in _GRID_GATE_NAMES if rng.random() < 0.6] or ["phased_xz"]
+    spec = v2.device_pb2.DeviceSpecification()
+    spec.valid_qubits.extend("%d_%d" % c for c in keep)
+    ts = spec.valid_targets.add()
+    ts.name = "2_qubit_targets"
+    ts.target_ordering = v2.device_pb2.TargetSet.SYMMETRIC
+    for a, b in pairs:
+        t = ts.targets.add()
+        t.ids.extend(["%d_%d" % a, "%d_%d" % b] if rng.random() < 0.5 else ["%d_%d" % b, "%d_%d" % a])
+    if rng.random() < 0.5:
+        mt = spec.valid_targets.add()
+        mt.name = "meas_targets"
+        mt.target_ordering = v2.device_pb2.TargetSet.SUBSET_PERMUTATION
+    for i, g in enumerate(names):
+        gs = spec.valid_gates.add()
+        getattr(gs, g).SetInParent()
+        gs.gate_duration_picos = 1000 * (i + 1)
+    dev = cg.GridDevice.from_proto(spec)
+    pair_set = {frozenset((cirq.GridQubit(*a), cirq.GridQubit(*b))) for a, b in pairs}
+    off = [cirq.GridQubit(r0 + rows + 1, c0), cirq.GridQubit(r0 + rows + 1, c0 + 1), cirq.GridQubit(r0 + rows + 2, c0)] + \
+          [cirq.GridQubit(*c) for c in cells if c not in keep]
+    cands = _grid_candidates(rng)
+    name_set = set(names)
+    base = dict(device="GridDevice", gates=names, qubits=["%d_%d" % c for c in keep], pairs=[("%d_%d" % a, "%d_%d" % b) for a, b in pairs])
+    valid_ops, all_ops = [], []
+    for _ in range(8):
+        label, arity, mk, admits, variadic = cands[int(rng.integers(len(cands)))]
+        mode = ["on", "on", "on", "off", "mixed"][int(rng.integers(5))]
+        qs = None
+        if arity == 2 and mode == "on" and rng.random() < 0.6 and pair_set:
+            pr = sorted(pair_set, key=lambda f: sorted(f))[int(rng.integers(len(pair_set)))]
+            qs = sorted(pr)
+            if rng.random() < 0.5:
+                qs = qs[::-1]
+        if qs is None:
+            qs = _pick_qubits(rng, qubits, off, arity, mode)
+        if qs is None:
+            continue
+        if variadic and arity == 2 and frozenset(qs) not in pair_set and all(q in qubits for q in qs):
+            continue  # a 2-qubit measurement / wait on a non-pair: the docstring does not say which way this goes
+        op = mk(qs)
+        gate_ok = bool(admits & name_set)
+        qubits_ok = all(q in qubits for q in qs)
+        pair_ok = arity != 2 or variadic or frozenset(qs) in pair_set
+        expect = gate_ok and qubits_ok and pair_ok
+        why = "" if expect else ("operation-whose-gate-is-not-in-the-specification" if not gate_ok else
+                                 "operation-on-qubit-off-device" if not qubits_ok else "two-qubit-operation-on-a-pair-not-in-the-specification")
+        got, err = _verdict(dev.validate_operation, op)
+        wit = dict(base, operation=repr(op), candidate=label, expected="accept" if expect else "ValueError: " + why)
+        _check_verdict(ctx, "GridDevice", got, err, expect, why, wit)
+        ctx.distinct(("grid", tuple(names), len(keep), len(pairs), label, mode, pair_ok), nontrivial=(not expect) or arity >= 2)
+        all_ops.append((op, expect))
+        if expect:
+            valid_ops.append(op)
+    # circuits: accepted exactly when every operation is
+    for ops_, expect in ((valid_ops, True), ([o for o, _ in all_ops], all(e for _, e in all_ops))):
+        if not ops_:
+            continue
+        circ = cirq.Circuit()
+        for op in ops_:
+            circ.append(op, strategy=cirq.InsertStrategy.NEW)
+        got, err = _verdict(dev.validate_circuit, circ)
+        _check_verdict(ctx, "GridDevice", got, err, expect, "circuit-with-an-invalid-operation",
+                       dict(base, circuit=[repr(o) for o in ops_], expected="accept" if expect else "ValueError"))
+    ctx.sample({"device": "GridDevice", "gates": names, "qubits": len(keep), "pairs": len(pairs)})
+
+
+def _dev_ionq(ctx, rng):
+    import cirq
+    import cirq_ionq
+
+    nq = int(rng.integers(1, 6))
+    if rng.random() < 0.5:
+        dev = cirq_ionq.IonQAPIDevice(nq)
+        on = cirq.LineQubit.range(nq)
+    else:
+        on = [cirq.LineQubit(int(i)) for i in sorted(rng.choice(12, size=nq, replace=False))]
+        dev = cirq_ionq.IonQAPIDevice(on)
+    off = [cirq.LineQubit(i) for i in range(20, 24)] + [cirq.LineQubit(i) for i in range(12) if cirq.LineQubit(i) not in on][:2]
+    t = float(rng.uniform(0.05, 0.95))
+    cands = [  # docstring: X/Y/Z powers, XX/YY/ZZ powers, CNOT, H, SWAP, measurement
+        ("X**t", 1, lambda q: (cirq.X ** t)(*q), True), ("Y**t", 1, lambda q: (cirq.Y ** t)(*q), True),
+        ("Z**t", 1, lambda q: (cirq.Z ** t)(*q), True), ("rx", 1, lambda q: cirq.rx(t)(*q), True), ("H", 1, lambda q: cirq.H(*q), True),
+        ("XX**t", 2, lambda q: (cirq.XX ** t)(*q), True), ("YY**t", 2, lambda q: (cirq.YY ** t)(*q), True),
+        ("ZZ**t", 2, lambda q: (cirq.ZZ ** t)(*q), True), ("CNOT", 2, lambda q: cirq.CNOT(*q), True), ("SWAP", 2, lambda q: cirq.SWAP(*q), True),
+        ("measure", 1, lambda q: cirq.measure(*q, key="k"), True), ("measure2", 2, lambda q: cirq.measure(*q, key="k2"), True),
+        ("H**t", 1, lambda q: (cirq.H ** t)(*q), False), ("CNOT**t", 2, lambda q: (cirq.CNOT ** t)(*q), False),
+        ("SWAP**t", 2, lambda q: (cirq.SWAP ** t)(*q), False), ("CZ", 2, lambda q: cirq.CZ(*q), False), ("ISWAP", 2, lambda q: cirq.ISWAP(*q), False),
+        ("PhasedX", 1, lambda q: cirq.PhasedXPowGate(phase_exponent=t)(*q), False), ("CCX", 3, lambda q: cirq.CCX(*q), False),
+        ("Matrix2", 1, lambda q: cirq.MatrixGate(L.haar_unitary(rng, 2))(*q), False), ("GPI", 1, lambda q: cirq_ionq.GPIGate(phi=t)(*q), False),
+    ]
+    base = dict(device="IonQAPIDevice", qubits=[repr(q) for q in on])
+    all_ops = []
+    for _ in range(8):
+        label, arity, mk, gate_ok = cands[int(rng.integers(len(cands)))]
+        mode = ["on", "on", "on", "off", "mixed"][int(rng.integers(5))]
+        qs = _pick_qubits(rng, on, off, arity, mode)
+        if qs is None:
+            continue
+        op = mk(qs)
+        qubits_ok = all(q in on for q in qs)
+        expect = gate_ok and qubits_ok
+        why = "" if expect else ("operation-whose-gate-is-not-in-the-documented-api-gate-list" if not gate_ok else
+                                 ("operation-with-some-qubits-off-device" if any(q in on for q in qs) else "operation-on-qubits-off-device"))
+        got, err = _verdict(dev.validate_operation, op)
+        _check_verdict(ctx, "IonQAPIDevice", got, err, expect, why, dict(base, operation=repr(op), candidate=label,
+                                                                         expected="accept" if expect else "ValueError: " + why))
+        ctx.distinct(("ionq", nq, label, mode), nontrivial=(not expect) or arity >= 2)
+        all_ops.append((op, expect, why))
+    if all_ops:
+        circ = cirq.Circuit()
+        for op, _, _ in all_ops:
+            circ.append(op, strategy=cirq.InsertStrategy.NEW)
+        expect = all(e for _, e, _ in all_ops)
+        bad_whys = sorted({w for _, e, w in all_ops if not e})
+        why = bad_whys[0] if len(bad_whys) == 1 else "circuit-with-an-invalid-operation"
+        got, err = _verdict(dev.validate_circuit, circ)
+        _check_verdict(ctx, "IonQAPIDevice", got, err, expect, why if not expect else "", dict(base, circuit=[repr(o) for o, _, _ in all_ops]))
+    ctx.sample({"device": "IonQAPIDevice", "qubits": [repr(q) for q in on]})
+
+
+def _dev_aqt(ctx, rng):
+    import cirq
+    from cirq_aqt import aqt_device
+
+    nq = int(rng.integers(1, 6))
+    if rng.random() < 0.5:
+        dev, on = aqt_device.get_aqt_device(nq)
+    else:
+        on = [cirq.LineQubit(int(i)) for i in sorted(rng.choice(10, size=nq, replace=False))]
+        us = 1000 * cirq.Duration(nanos=1)
+        dev = aqt_device.AQTDevice(measurement_duration=100 * us, twoq_gates_duration=200 * us, oneq_gates_duration=10 * us, qubits=on)
+    off = [cirq.LineQubit(i) for i in range(30, 33)]
+    wrong_type = [cirq.NamedQubit("a"), cirq.GridQubit(0, 0)]
+    t = float(rng.uniform(0.05, 0.95))
+    cands = [  # AQTTargetGateset docstring: XXPowGate, ZPowGate, PhasedXPowGate, MeasurementGate
+        ("XX**t", 2, lambda q: (cirq.XX ** t)(*q), True), ("ms", 2, lambda q: cirq.ms(t)(*q), True), ("Z**t", 1, lambda q: (cirq.Z ** t)(*q), True),
+        ("rz", 1, lambda q: cirq.rz(t)(*q), True), ("PhasedX", 1, lambda q: cirq.PhasedXPowGate(phase_exponent=t, exponent=0.5)(*q), True),
+        ("measure", 1, lambda q: cirq.measure(*q, key="k%d" % int(rng.integers(1 << 30))), True),
+        ("X", 1, lambda q: cirq.X(*q), False), ("Y**t", 1, lambda q: (cirq.Y ** t)(*q), False), ("H", 1, lambda q: cirq.H(*q), False),
+        ("CZ", 2, lambda q: cirq.CZ(*q), False), ("CNOT", 2, lambda q: cirq.CNOT(*q), False), ("YY**t", 2, lambda q: (cirq.YY ** t)(*q), False),
+        ("PhasedXZ", 1, lambda q: cirq.PhasedXZGate(x_exponent=t, z_exponent=0.1, axis_phase_exponent=0.2)(*q), False),
+        ("CCZ", 3, lambda q: cirq.CCZ(*q), False),
+    ]
+    base = dict(device="AQTDevice", qubits=[repr(q) for q in on])
+    all_ops = []
+    for _ in range(8):
+        label, arity, mk, gate_ok = cands[int(rng.integers(len(cands)))]
+        mode = ["on", "on", "on", "off", "mixed", "type"][int(rng.integers(6))]
+        if mode == "type":
+            qs = _pick_qubits(rng, on, wrong_type, arity, "mixed" if arity > 1 else "off")
+        else:
+            qs = _pick_qubits(rng, on, off, arity, mode)
+        if qs is None:
+            continue
+        op = mk(qs)
+        qubits_ok = all(q in on for q in qs)
+        expect = gate_ok and qubits_ok
+        why = "" if expect else ("operation-whose-gate-is-not-in-the-gateset" if not gate_ok else "operation-on-qubit-off-device")
+        got, err = _verdict(dev.validate_operation, op)
+        _check_verdict(ctx, "AQTDevice", got, err, expect, why, dict(base, operation=repr(op), candidate=label,
+                                                                     expected="accept" if expect else "ValueError: " + why))
+        ctx.distinct(("aqt", nq, label, mode), nontrivial=(not expect) or arity >= 2)
+        all_ops.append((op, expect))
+    valid = [o for o, e in all_ops if e]
+    for ops_, expect in ((valid, True), ([o for o, _ in all_ops], all(e for _, e in all_ops))):
+        if ops_:
+            circ = cirq.Circuit()
+            for op in ops_:
+                circ.append(op, strategy=cirq.InsertStrategy.NEW)
+            got, err = _verdict(dev.validate_circuit, circ)
+            _check_verdict(ctx, "AQTDevice", got, err, expect, "circuit-with-an-invalid-operation", dict(base, circuit=[repr(o) for o in ops_]))
+    ctx.sample({"device": "AQTDevice", "qubits": [repr(q) for q in on]})
+
+
+def _pasqal_cands(rng, additional):
+    import cirq
+
+    t = float(rng.uniform(0.05, 0.95))
+    k = int(rng.integers(1, 4))
+    return [  # PasqalGateset docstring + constructor: parallel single-qubit gates, integer CZ powers, identity, measurement,
+        #         and - optionally - integer powers of CNOT, CCNOT, CCZ
+        ("H", 1, lambda q: cirq.H(*q), True, False), ("X**t", 1, lambda q: (cirq.X ** t)(*q), True, False),
+        ("Y**t", 1, lambda q: (cirq.Y ** t)(*q), True, False), ("Z**t", 1, lambda q: (cirq.Z ** t)(*q), True, False),
+        ("PhasedX", 1, lambda q: cirq.PhasedXPowGate(phase_exponent=t, exponent=0.5)(*q), True, False),
+        ("Parallel(X**t,2)", 2, lambda q: cirq.ParallelGate(cirq.X ** t, 2)(*q), True, False),
+        ("I", 1, lambda q: cirq.I(*q), True, False), ("measure", 1, lambda q: cirq.measure(*q, key="k%d" % int(rng.integers(1 << 30))), True, False),
+        ("measure2", 2, lambda q: cirq.measure(*q, key="j%d" % int(rng.integers(1 << 30))), True, False),
+        ("CZ**%d" % k, 2, lambda q: (cirq.CZ ** k)(*q), True, True), ("CZ", 2, lambda q: cirq.CZ(*q), True, True),
+        ("CNOT", 2, lambda q: cirq.CNOT(*q), additional, False), ("CCX", 3, lambda q: cirq.CCX(*q), additional, False),
+        ("CCZ", 3, lambda q: cirq.CCZ(*q), additional, False),
+        ("CZ**t", 2, lambda q: (cirq.CZ ** t)(*q), False, False), ("H**t", 1, lambda q: (cirq.H ** t)(*q), False, False),
+        ("CCZ**t", 3, lambda q: (cirq.CCZ ** t)(*q), False, False), ("ISWAP", 2, lambda q: cirq.ISWAP(*q), False, False),
+        ("SWAP", 2, lambda q: cirq.SWAP(*q), False, False), ("XX**t", 2, lambda q: (cirq.XX ** t)(*q), False, False),
+        ("PhasedXZ", 1, lambda q: cirq.PhasedXZGate(x_exponent=t, z_exponent=0.1, axis_phase_exponent=0.2)(*q), False, False),
+        ("Matrix2", 1, lambda q: cirq.MatrixGate(L.haar_unitary(rng, 2))(*q), False, False),
+    ]
+
+
+def _dev_pasqal(ctx, rng, virtual):
+    import cirq
+    import cirq_pasqal
+
+    nq = int(rng.integers(2, 7))
+    radius = None
+    if not virtual:
+        on = [cirq.NamedQubit("atom%d" % i) for i in range(nq)]
+        dev = cirq_pasqal.PasqalDevice(qubits=on)
+        off = [cirq.NamedQubit("elsewhere%d" % i) for i in range(3)]
+        wrong_type = [cirq.LineQubit(0), cirq.GridQubit(1, 1)]
+        name = "PasqalDevice"
+
+        def dist(a, b):
+            return 0.0
+    else:
+        qt = int(rng.integers(3))
+        cells = [(i, j) for i in range(3) for j in range(3)]
+        chosen = [cells[int(i)] for i in rng.choice(9, size=nq, replace=False)]
+        if qt == 0:
+            on = [cirq.GridQubit(r, c) for r, c in chosen]
+            coords = {q: (q.row, q.col, 0) for q in on}
+            off = [cirq.GridQubit(7, 7), cirq.GridQubit(8, 7), cirq.GridQubit(7, 8)]
+        elif qt == 1:
+            xs = sorted(int(i) for i in rng.choice(12, size=nq, replace=False))
+            on = [cirq.LineQubit(x) for x in xs]
+            coords = {q: (q.x, 0, 0) for q in on}
+            off = [cirq.LineQubit(40), cirq.LineQubit(41), cirq.LineQubit(42)]
+        else:
+            on = [cirq_pasqal.ThreeDQubit(float(r), float(c), float((r + c) % 2)) for r, c in chosen]
+            coords = {q: (q.x, q.y, q.z) for q in on}
+            off = [cirq_pasqal.ThreeDQubit(9.0, 9.0, 0.0), cirq_pasqal.ThreeDQubit(9.0, 8.0, 0.0), cirq_pasqal.ThreeDQubit(8.0, 9.0, 0.0)]
+        wrong_type = [cirq.NamedQubit("n0"), cirq.NamedQubit("n1")]
+
+        def dist(a, b):
+            return math.sqrt(sum((x - y) ** 2 for x, y in zip(coords[a], coords[b])))
+        ds = sorted({round(dist(a, b), 9) for a in on for b in on if a != b})
+        dmin = ds[0]
+        # radius strictly between two realised distances (never on one), at most 3 x the minimal distance as the constructor demands
+        grid = [0.0] + ds + [ds[-1] + 1.0]
+        mids = [(grid[i] + grid[i + 1]) / 2 for i in range(len(grid) - 1)]
+        mids = [m for m in mids if m <= 3.0 * dmin - 1e-6] or [dmin / 2]
+        radius = float(mids[int(rng.integers(len(mids)))])
+        dev = cirq_pasqal.PasqalVirtualDevice(control_radius=radius, qubits=on)
+        name = "PasqalVirtualDevice"
+    cands = _pasqal_cands(rng, additional=not virtual)
+    base = dict(device=name, qubits=[repr(q) for q in on], control_radius=radius)
+    all_ops = []
+    for _ in range(8):
+        label, arity, mk, gate_ok, controlled = cands[int(rng.integers(len(cands)))]
+        mode = ["on", "on", "on", "on", "off", "mixed", "type"][int(rng.integers(7))]
+        if mode == "type":
+            qs = _pick_qubits(rng, on, wrong_type, arity, "mixed" if arity > 1 else "off")
+        else:
+            qs = _pick_qubits(rng, on, off, arity, mode)
+        if qs is None:
+            continue
+        op = mk(qs)
+        qubits_ok = all(q in on for q in qs)
+        dist_ok = True
+        if virtual and controlled and qubits_ok:
+            dist_ok = all(dist(a, b) <= radius for a in qs for b in qs if a != b)
+        expect = gate_ok and qubits_ok and dist_ok
+        why = "" if expect else ("operation-whose-gate-is-not-in-the-gateset" if not gate_ok else
+                                 "operation-on-qubit-off-device" if not qubits_ok else "controlled-gate-beyond-control-radius")
+        got, err = _verdict(dev.validate_operation, op)
+        _check_verdict(ctx, name, got, err, expect, why, dict(base, operation=repr(op), candidate=label,
+                                                              expected="accept" if expect else "ValueError: " + why))
+        ctx.distinct(("pasqal", virtual, nq, label, mode, dist_ok), nontrivial=(not expect) or arity >= 2)
+        all_ops.append((op, expect))
+    # circuit-level rules of the docstrings: one operation per moment (virtual device; measurements may share a moment) and
+    # nothing after a measurement
+    gates = [o for o, e in all_ops if e and not cirq.is_measurement(o)]
+    meas_q = on[int(rng.integers(len(on)))]
+    variants = []
+    serial = cirq.Circuit()
+    for op in gates:
+        serial.append(op, strategy=cirq.InsertStrategy.NEW)
+    terminal = serial + cirq.Circuit(cirq.Moment([cirq.measure(meas_q, key="final")]))
+    variants.append(("serial+terminal-measurement", terminal, True, ""))
+    if gates:
+        after = terminal + cirq.Circuit(cirq.Moment([gates[0]]))
+        variants.append(("gate-after-measurement", after, False, "circuit-with-operation-after-measurement"))
+    bad = [o for o, e in all_ops if not e]
+    if bad:
+        c2 = serial.copy()
+        c2.append(bad[0], strategy=cirq.InsertStrategy.NEW)
+        variants.append(("with-invalid-operation", c2, False, "circuit-with-an-invalid-operation"))
+    if virtual and len(on) >= 2:
+        two = cirq.Circuit(cirq.Moment([cirq.X(on[0]), cirq.Y(on[1])]))
+        variants.append(("two-gates-in-one-moment", two, False, "circuit-with-simultaneous-gates"))
+    for vlabel, circ, expect, why in variants:
+        got, err = _verdict(dev.validate_circuit, circ)
+        _check_verdict(ctx, name, got, err, expect, why, dict(base, variant=vlabel, circuit=[repr(o) for o in circ.all_operations()][:12]))
+    # documented special case: a measurement with an invert mask raises NotImplementedError
+    got, err = _verdict(dev.validate_operation, cirq.measure(meas_q, key="inv", invert_mask=(True,)))
+    _check_verdict(ctx, name, got, err, False, "measurement-with-invert-mask", dict(base, operation="measure(invert_mask=(True,))"),
+                   documented_alt="NotImplementedError")
+    ctx.sample({"device": name, "qubits": len(on), "control_radius": radius})
+
+
+def sec_devices(ctx, rng, case):
+    kind = case % 6
+    if kind in (0, 1):
+        _dev_grid(ctx, rng)
+    elif kind == 2:
+        _dev_ionq(ctx, rng)
+    elif kind == 3:
+        _dev_aqt(ctx, rng)
+    elif kind == 4:
+        _dev_pasqal(ctx, rng, virtual=False)
+    else:
+        _dev_pasqal(ctx, rng, virtual=True)
+
+
 SECTIONS = [
-    ("gatesets", sec_gatesets, 3400, 60000, 3.0),
+    ("gatesets", sec_gatesets, 8000, 110000, 3.0),
+    ("routing", sec_routing, 5000, 60000, 1.2),
+    ("devices", sec_devices, 1400, 16000, 0.5),
 ]
